@@ -328,8 +328,17 @@ func vh_transport_dispatch() {
 	}
 	n := vnChoice("len", 7)
 	pkt := vnBytes("seg", n)
-	nic.DeliverTransportPacket(&r, vhTransP, buffer.View(pkt).ToVectorisedView())
-	if n < 4 {
+	// the segment arrives in one view or split into two (reassembled fragments, large frames):
+	// the transport header must be complete in the FIRST view, which is what the protocols parse
+	first := n
+	vv := buffer.View(pkt).ToVectorisedView()
+	if sp := vnChoice("split", 7); sp > 0 && sp < n {
+		first = sp
+		vv = buffer.NewVectorisedView(n, []buffer.View{buffer.View(pkt[:sp]), buffer.View(pkt[sp:])})
+		vreach("split")
+	}
+	nic.DeliverTransportPacket(&r, vhTransP, vv)
+	if first < 4 {
 		vassert(nicEP.pkts+stackEP.pkts+defHandled+tp.unknown == 0, "a transport header that is too short is dropped before the ports are parsed")
 		vreach("short")
 		return
